@@ -103,20 +103,58 @@ fn u256_u128(x: &ckb_types::U256) -> u128 { format!("{}", x).parse().unwrap() }
 pub fn run(seed: u64, thorough: bool, out_dir: &Path, scratch: &Path) -> Out {
     let mut rng = Rng::new(seed ^ 0xC08);
     let mut out = Out { viol: vec![], evaluations: 0, distinct: BTreeSet::new(), stats: BTreeMap::new(), samples: vec![] };
-    let header = "From CKB Require Import Chain.Crash.";
+    let header = "From CKB Require Import Chain.Crash Chain.Recover.";
     let mut cf = CaseFile::new(out_dir, "cases_00", header);
     cf.group("crash", "ccase", "check_ccase");
+    cf.group("recover", "rcase", "check_rcase");
     let mut descs: BTreeMap<String, Vec<Value>> = BTreeMap::new();
     let n_hist = hx_common::shard_share(if thorough { 24 } else { 3 });
     let max_points = if thorough { 400 } else { 45 };
-    for hi in 0..n_hist {
+    let n_directed = hx_common::shard_share(if thorough { 6 } else { 1 });
+    for hi in 0..n_hist + n_directed {
+        // ---- directed histories: a heavy short branch is the tip while a lighter, longer branch is imported;
+        //      cut right after a block that lands two or more heights above the tip (start-up recovery
+        //      scans upwards from the tip and stops at the first height without an unverified block)
+        let directed: Option<(ChainCfg, Vec<BlockView>, Value)> = if hi >= n_hist {
+            let mut found = None;
+            for _try in 0..12 {
+                let tree = crate::tree::gen_tree_heavy_vs_light(&mut rng);
+                let gel = tree.consensus.genesis_epoch_ext().length();
+                let probe = Node::temp(&tree.consensus);
+                let mut cut = None;
+                for (i, nd) in tree.nodes.iter().enumerate() {
+                    let t = probe.tip().number();
+                    if nd.block.number() >= t + 2 && cut.is_none() { cut = Some(i); }
+                    let _ = probe.process(&nd.block);
+                }
+                probe.stop();
+                if let Some(i) = cut {
+                    let blocks: Vec<BlockView> = tree.nodes[..=i].iter().map(|n| n.block.clone()).collect();
+                    found = Some((ChainCfg { genesis_epoch_length: gel, ..Default::default() }, blocks, json!([{"directed": "heavy short branch is the tip, a lighter longer branch is imported", "genesis_epoch_length": gel, "blocks": i + 1}])));
+                    break;
+                }
+            }
+            match found { Some(f) => Some(f), None => { *out.stats.entry("directed_history_not_found".into()).or_default() += 1; continue; } }
+        } else { None };
         // ---- a history with transactions and forks, generated on a scratch node
-        let cfg = ChainCfg { window: *rng.pick(&[(1u64, 2u64), (2, 4)]), genesis_epoch_length: *rng.pick(&[5u64, 1000]), ..Default::default() };
+        let cfg = match &directed { Some((c, _, _)) => c.clone(), None => ChainCfg { window: *rng.pick(&[(1u64, 2u64), (2, 4)]), genesis_epoch_length: *rng.pick(&[5u64, 1000]), ..Default::default() } };
         let mut h = Hist::new(cfg.clone(), scratch.join(format!("gen{hi}")), false);
         let mut noop = |_: &Hist, _: &Change| {};
         let target = rng.range(8, if thorough { 22 } else { 14 });
         let mut guard = 0;
-        while (h.blocks.len() as u64) < target && guard < 60 {
+        if let Some((_, dblocks, j)) = &directed {
+            // the scratch node imports the directed blocks; Hist only keeps the books
+            for b in dblocks {
+                let _ = h.node().process(b);
+                let id = h.blocks.len() as u64 + 1;
+                h.block_id.insert(b.hash(), id);
+                for tx in b.transactions() { let n = h.tx_id.len() as u64 + 1; h.tx_id.entry(tx.hash()).or_insert(n); }
+                h.blocks.push(b.clone());
+            }
+            h.jops = j.as_array().cloned().unwrap_or_default();
+            *out.stats.entry("directed_histories".into()).or_default() += 1;
+        }
+        while directed.is_none() && (h.blocks.len() as u64) < target && guard < 60 {
             guard += 1;
             let tip = h.node().tip().number();
             let r = if tip >= 2 && rng.chance(1, 3) {
@@ -177,8 +215,41 @@ pub fn run(seed: u64, thorough: bool, out_dir: &Path, scratch: &Path) -> Out {
             let r = std::panic::catch_unwind(std::panic::AssertUnwindSafe(|| {
                 let mut viol: Vec<Value> = vec![];
                 // ---- restart
+                // what the start-up recovery will find: stored blocks without a record, by height in hash order
+                let pre = Node::peek(&consensus, &case_dir.join("node"), |sh| {
+                    let st = sh.store();
+                    let mut unv: BTreeMap<u64, Vec<(Vec<u8>, u64)>> = BTreeMap::new();
+                    let mut parent: Vec<(u64, u64)> = vec![];
+                    let mut recorded: Vec<u64> = vec![0];
+                    for b in &blocks {
+                        let id = block_id[&b.hash()];
+                        if st.get_block_ext(&b.hash()).is_some() { recorded.push(id); }
+                        else if st.get_block_header(&b.hash()).is_some() {
+                            unv.entry(b.number()).or_default().push((b.hash().as_slice().to_vec(), id));
+                            parent.push((id, *block_id.get(&b.parent_hash()).unwrap_or(&0)));
+                        }
+                    }
+                    for v in unv.values_mut() { v.sort(); }
+                    (unv, parent, recorded, st.get_tip_header().map(|t| t.number()).unwrap_or(0))
+                });
                 let node = Node::on_disk(&consensus, &case_dir.join("node"), false);
                 wait_startup(&node);
+                // let the re-submitted blocks get through the import pipeline
+                {
+                    let pending = |n: &Node| pre.0.values().flatten().filter(|(_, id)| n.shared.store().get_block_ext(&blocks[*id as usize - 1].hash()).is_none()).count();
+                    let (mut last, mut since, t0) = (pending(&node), Instant::now(), Instant::now());
+                    while since.elapsed() < Duration::from_millis(150) && t0.elapsed() < Duration::from_secs(10) {
+                        std::thread::sleep(Duration::from_millis(10));
+                        let now = pending(&node);
+                        if now != last { last = now; since = Instant::now(); }
+                    }
+                }
+                let picked: Vec<u64> = pre.0.values().flatten().filter(|(_, id)| node.shared.store().get_block_ext(&blocks[*id as usize - 1].hash()).is_some()).map(|(_, id)| *id).collect();
+                let rcase = format!("mkRC {} {} {} {} 1 {} {}",
+                    coq_list(&pre.0.iter().collect::<Vec<_>>(), |(h, v)| format!("({}, {})", coq_nat(**h), coq_list(v, |(_, id)| coq_n(*id as u128)))),
+                    coq_list(&pre.1, |(a, b)| format!("({}, {})", coq_n(*a as u128), coq_n(*b as u128))),
+                    coq_list(&pre.2, |x| coq_n(*x as u128)), coq_nat(pre.3), coq_nat(pre.3 + 200), coq_list(&picked, |x| coq_n(*x as u128)));
+                let n_unv: usize = pre.0.values().map(|v| v.len()).sum();
                 let snap = node.shared.snapshot();
                 let td_restart = u256_u128(snap.total_difficulty());
                 // C02 consistency of what is stored
@@ -194,7 +265,14 @@ pub fn run(seed: u64, thorough: bool, out_dir: &Path, scratch: &Path) -> Out {
                     let has_ext = node.shared.store().get_block_ext(&b.hash()).is_some();
                     let parent_ext = node.shared.store().get_block_ext(&b.parent_hash()).is_some();
                     if stored && !has_ext && parent_ext {
-                        viol.push(json!({"what": "a block that was stored but not verified before the crash (its parent is verified) was not picked up after the restart", "detail": {"case": ctx, "block": block_id[&b.hash()]}}));
+                        // InitLoadUnverified scans upwards from the tip and stops at the first height that has no
+                        // stored-but-unverified block: is this block behind such a height?
+                        let tipn = snap.tip_number();
+                        let unverified_at = |n: u64| blocks.iter().any(|x| x.number() == n && node.shared.store().get_block_header(&x.hash()).is_some() && node.shared.store().get_block_ext(&x.hash()).is_none());
+                        let behind_gap = b.number() > tipn + 1 && (tipn + 1..b.number()).any(|n| !unverified_at(n));
+                        let mut v = json!({"what": "a block that was stored but not verified before the crash (its parent is verified) was not picked up after the restart", "detail": {"case": ctx, "block": block_id[&b.hash()], "block_number": b.number(), "tip_number_at_restart": tipn}});
+                        if behind_gap { v["signature"] = json!("C08-recovery-stops-at-first-empty-height-above-tip"); }
+                        viol.push(v);
                     }
                 }
                 // ---- deliver everything again
@@ -211,15 +289,20 @@ pub fn run(seed: u64, thorough: bool, out_dir: &Path, scratch: &Path) -> Out {
                 }
                 let td_final = u256_u128(snap.total_difficulty());
                 node.stop();
-                (viol, td_restart, td_final)
+                (viol, td_restart, td_final, rcase, n_unv)
             }));
             match r {
                 Err(p) => {
                     let msg = p.downcast_ref::<String>().cloned().or_else(|| p.downcast_ref::<&str>().map(|s| s.to_string())).unwrap_or_default();
                     out.viol.push(json!({"what": format!("the node does not come up again after the crash: {msg}"), "detail": ctx}));
                 }
-                Ok((viol, td_restart, td_final)) => {
+                Ok((viol, td_restart, td_final, rcase, n_unv)) => {
                     out.viol.extend(viol);
+                    if n_unv > 0 {
+                        *out.stats.entry("restarts_with_stored_unverified_blocks".into()).or_default() += 1;
+                        cf.push(1, rcase);
+                        descs.entry("recover".into()).or_default().push(ctx.clone());
+                    }
                     // model: deliveries completed before the crash, the one in flight, the crash, everything again
                     let mk = |b: &BlockView| { let id = block_id[&b.hash()]; format!("mkB {} {} {} true", coq_n(id as u128), coq_n(parent_of[&id] as u128), coq_n(u256_u128(&b.header().difficulty()))) };
                     if !async_mode {
